@@ -26,6 +26,11 @@ enum SpawnKind {
     /// an urgent task that itself spawns an urgent fire-and-forget task through a captured
     /// `Scheduler` (tasks that use the pool they run on)
     UrgentNested,
+    /// 'g': a regular task that stays on its worker until the LAST task of its spawner has run
+    /// (a long-running task that depends on later work; only in programs with >= 2 workers)
+    Gated,
+    /// 'A': not a spawn - the spawner awaits every handle it holds so far, except gated tasks
+    AwaitSoFar,
 }
 
 #[derive(Clone, Debug)]
@@ -49,7 +54,7 @@ impl Program {
             .map(|(p, ops)| {
                 format!(
                     "{}@{}",
-                    ops.iter().map(|k| match k { SpawnKind::Regular => 's', SpawnKind::Urgent => 'u', SpawnKind::Forget => 'f', SpawnKind::UrgentNested => 'n' }).collect::<String>(),
+                    ops.iter().map(|k| match k { SpawnKind::Regular => 's', SpawnKind::Urgent => 'u', SpawnKind::Forget => 'f', SpawnKind::UrgentNested => 'n', SpawnKind::Gated => 'g', SpawnKind::AwaitSoFar => 'A' }).collect::<String>(),
                     p
                 )
             })
@@ -73,7 +78,7 @@ impl Program {
                 let (ops, proc_) = sp.split_once('@').unwrap();
                 (
                     proc_.parse().unwrap(),
-                    ops.chars().map(|c| match c { 's' => SpawnKind::Regular, 'u' => SpawnKind::Urgent, 'n' => SpawnKind::UrgentNested, _ => SpawnKind::Forget }).collect(),
+                    ops.chars().map(|c| match c { 's' => SpawnKind::Regular, 'u' => SpawnKind::Urgent, 'n' => SpawnKind::UrgentNested, 'g' => SpawnKind::Gated, 'A' => SpawnKind::AwaitSoFar, _ => SpawnKind::Forget }).collect(),
                 )
             })
             .collect();
@@ -143,6 +148,21 @@ fn pin_to(hw: &SystemHardware, processor: usize) {
 fn spawner_body(hw: SystemHardware, sched: Scheduler, processor: usize, ops: Vec<SpawnKind>, first_task: usize, keep: bool) -> String {
     pin_to(&hw, processor);
     let mut handles = Vec::new();
+    let mut gated_handles = Vec::new();
+    let mut out = Vec::new();
+    let last_task = first_task + ops.iter().rposition(|k| *k != SpawnKind::AwaitSoFar).unwrap_or(0);
+    let await_one = |id: usize, h: vicinal::JoinHandle<usize>, out: &mut Vec<String>| match block_on(h) {
+        Ok(v) => {
+            if v != id * 10 + 7 {
+                panic!("ORACLE[wrong-value] task {id} returned {v}");
+            }
+            if RUNS[id].load(SeqCst) != 1 {
+                panic!("ORACLE[value-without-run] task {id} yielded a value but ran {} times", RUNS[id].load(SeqCst));
+            }
+            out.push(format!("{id}:value"));
+        }
+        Err(m) => out.push(format!("{id}:panic({})", m.chars().take(40).collect::<String>())),
+    };
     for (i, kind) in ops.iter().enumerate() {
         let id = first_task + i;
         let hw2 = hw.clone();
@@ -158,6 +178,25 @@ fn spawner_body(hw: SystemHardware, sched: Scheduler, processor: usize, ops: Vec
             SpawnKind::Forget => sched.spawn_and_forget(move || {
                 let _ = task();
             }),
+            SpawnKind::Gated => {
+                let hw4 = hw.clone();
+                gated_handles.push((
+                    id,
+                    sched.spawn(move || {
+                        vsched::point("task:run");
+                        RUNS[id].fetch_add(1, SeqCst);
+                        RAN_ON[id].store(i64::from(hw4.current_processor_id()), SeqCst);
+                        // stays on its worker until the spawner's last task has run
+                        vsched::block_until("task:gate", &mut || RUNS[last_task].load(SeqCst) == 1);
+                        id * 10 + 7
+                    }),
+                ));
+            }
+            SpawnKind::AwaitSoFar => {
+                for (hid, h) in std::mem::take(&mut handles) {
+                    await_one(hid, h, &mut out);
+                }
+            }
             SpawnKind::UrgentNested => {
                 let inner_sched = sched.clone();
                 let inner_id = first_task + ops.len() + i;
@@ -186,20 +225,8 @@ fn spawner_body(hw: SystemHardware, sched: Scheduler, processor: usize, ops: Vec
         drop(sched);
         None
     };
-    let mut out = Vec::new();
-    for (id, h) in handles {
-        match block_on(h) {
-            Ok(v) => {
-                if v != id * 10 + 7 {
-                    panic!("ORACLE[wrong-value] task {id} returned {v}");
-                }
-                if RUNS[id].load(SeqCst) != 1 {
-                    panic!("ORACLE[value-without-run] task {id} yielded a value but ran {} times", RUNS[id].load(SeqCst));
-                }
-                out.push(format!("{id}:value"));
-            }
-            Err(m) => out.push(format!("{id}:panic({})", m.chars().take(40).collect::<String>())),
-        }
+    for (id, h) in handles.into_iter().chain(gated_handles) {
+        await_one(id, h, &mut out);
     }
     drop(kept);
     out.join(",")
@@ -218,6 +245,9 @@ fn execution(prog: &Program) -> String {
     for (si, (processor, ops)) in prog.spawners.iter().enumerate() {
         let (hw2, sched, processor, ops2, f, keep) = (hw.clone(), pool.scheduler(), *processor, ops.clone(), first, prog.keep_scheduler);
         for (i, k) in ops.iter().enumerate() {
+            if *k == SpawnKind::AwaitSoFar {
+                continue;
+            }
             expect_proc.push((first + i, processor, *k));
             if *k == SpawnKind::UrgentNested {
                 expect_proc.push((first + ops.len() + i, processor, SpawnKind::Forget));
@@ -363,6 +393,9 @@ fn programs(thorough: bool) -> Vec<(Program, String)> {
         v.push((mk(1, 1, vec![(0, vec![Regular]), (0, vec![Regular])], true, true), "d2".into()));
         v.push((mk(1, 1, vec![(0, vec![UrgentNested])], false, false), "1".into()));
         v.push((mk(1, 2, vec![(0, vec![UrgentNested])], false, false), "d1".into()));
+        // a long task that depends on later work must not swallow the wake-up meant for the idle
+        // worker: gated A, B, await B, C (A's gate), await C, await A
+        v.push((mk(1, 2, vec![(0, vec![Gated, Regular, AwaitSoFar, Regular])], false, false), "d1".into()));
         // Breadth: every program of the thorough family once, on its default schedule ("d0" = no
         // deviation of any kind), so that each combination of operations is at least executed
         // and judged in the quick tier (defects that do not depend on the schedule).
@@ -373,6 +406,10 @@ fn programs(thorough: bool) -> Vec<(Program, String)> {
             }
         }
         return v;
+    }
+    // long-running tasks that depend on later work (two workers; live pool)
+    for ops in [vec![Gated, Regular, AwaitSoFar, Regular], vec![Gated, Urgent, AwaitSoFar, Urgent], vec![Gated, Regular], vec![Regular, AwaitSoFar, Gated, Regular, AwaitSoFar, Urgent]] {
+        v.push((Program { processors: 1, workers_per_processor: 2, spawners: vec![(0, ops)], concurrent_drop: false, keep_scheduler: false }, "d2".to_string()));
     }
     for (concurrent_drop, keep_scheduler) in [(false, false), (true, false), (true, true)] {
         // one spawner, one processor, one worker: the core programs get the deepest bound
